@@ -11,7 +11,7 @@ use bytes::Bytes;
 use futures::{SinkExt, StreamExt};
 use selium::prelude::*;
 use selium::std::codecs::StringCodec;
-use selium_protocol::{Frame, MessagePayload, PublisherPayload, SubscriberPayload, TopicName};
+use selium_protocol::{Frame, MessagePayload, PublisherPayload, ReplierPayload, RequestorPayload, SubscriberPayload, TopicName};
 use serde_json::{json, Value};
 use std::net::SocketAddr;
 use std::sync::Arc;
@@ -48,7 +48,7 @@ struct Held {
 
 /// register `n` raw subscribers on `topic`; each waits for its Ok. quinn allows 100 concurrent
 /// bidirectional streams per connection, so a new connection is used every 50 streams.
-async fn register_many(addr: SocketAddr, set: &CertSet, topic: &TopicName, n: usize, held: &mut Held) -> Result<(), String> {
+async fn register_many(addr: SocketAddr, set: &CertSet, topic: &TopicName, n: usize, held: &mut Held, reqrep: bool) -> Result<(), String> {
     let mut conn: Option<RawConn> = None;
     for i in 0..n {
         if i % 50 == 0 {
@@ -58,7 +58,8 @@ async fn register_many(addr: SocketAddr, set: &CertSet, topic: &TopicName, n: us
             conn = Some(RawConn::connect(addr, &set.ca, Some(&set.client)).await.map_err(|e| format!("raw connect: {e}"))?);
         }
         let c = conn.as_ref().unwrap();
-        let (s, first) = c.register(Frame::RegisterSubscriber(SubscriberPayload { topic: topic.clone(), retention_policy: 0, operations: vec![] })).await.map_err(|e| format!("registration {i} on the stalled topic: {e}"))?;
+        let frame = if reqrep { Frame::RegisterRequestor(RequestorPayload { topic: topic.clone() }) } else { Frame::RegisterSubscriber(SubscriberPayload { topic: topic.clone(), retention_policy: 0, operations: vec![] }) };
+        let (s, first) = c.register(frame).await.map_err(|e| format!("registration {i} on the stalled topic: {e}"))?;
         if first != Some(Frame::Ok) {
             return Err(format!("registration {i} on the stalled topic was answered {first:?}"));
         }
@@ -70,7 +71,7 @@ async fn register_many(addr: SocketAddr, set: &CertSet, topic: &TopicName, n: us
     Ok(())
 }
 
-async fn cell(set: Arc<CertSet>, n: usize, order: String, cellid: u64) -> Result<String, Fail> {
+async fn cell(set: Arc<CertSet>, n: usize, order: String, pattern: String, cellid: u64) -> Result<String, Fail> {
     let class = if n > 100 { "queue-overfull" } else { "queue-not-full" };
     let setup = |what: &str, e: String| fail("setup", what, format!("{what}: {e}"));
     // one server per cell: a blocked server must not leak into other cells
@@ -82,18 +83,24 @@ async fn cell(set: Arc<CertSet>, n: usize, order: String, cellid: u64) -> Result
     // sanity: the server works at all
     round_trip(addr, &set, &format!("/c17ns/sanity{cellid}"), Duration::from_secs(20)).await.map_err(|e| setup("sanity round trip", e))?;
     if order == "registrations-first" {
-        register_many(addr, &set, &ta, n, &mut held).await.map_err(|e| setup("registrations", e))?;
+        register_many(addr, &set, &ta, n, &mut held, pattern == "reqrep").await.map_err(|e| setup("registrations", e))?;
     }
-    // stall A: a subscriber that never reads, a publisher that floods until its sends stop completing
+    // stall A: a consumer that never reads (subscriber, or bound replier), a producer that floods
+    // (publisher, or requestor) until its sends stop completing
+    let (consumer, producer) = if pattern == "reqrep" {
+        (Frame::RegisterReplier(ReplierPayload { topic: ta.clone() }), Frame::RegisterRequestor(RequestorPayload { topic: ta.clone() }))
+    } else {
+        (Frame::RegisterSubscriber(SubscriberPayload { topic: ta.clone(), retention_policy: 0, operations: vec![] }), Frame::RegisterPublisher(PublisherPayload { topic: ta.clone(), retention_policy: 0, operations: vec![] }))
+    };
     let stall_conn = RawConn::connect(addr, &set.ca, Some(&set.client)).await.map_err(|e| setup("raw connect", e.to_string()))?;
-    let (sub_stream, first) = stall_conn.register(Frame::RegisterSubscriber(SubscriberPayload { topic: ta.clone(), retention_policy: 0, operations: vec![] })).await.map_err(|e| setup("stalling subscriber", e.to_string()))?;
+    let (sub_stream, first) = stall_conn.register(consumer).await.map_err(|e| setup("stalling consumer", e.to_string()))?;
     if first != Some(Frame::Ok) {
-        return Err(setup("stalling subscriber", format!("answered {first:?}")));
+        return Err(setup("stalling consumer", format!("answered {first:?}")));
     }
     held._streams.push(sub_stream); // kept open, never read again
-    let (mut pub_stream, first) = stall_conn.register(Frame::RegisterPublisher(PublisherPayload { topic: ta.clone(), retention_policy: 0, operations: vec![] })).await.map_err(|e| setup("flooding publisher", e.to_string()))?;
+    let (mut pub_stream, first) = stall_conn.register(producer).await.map_err(|e| setup("flooding producer", e.to_string()))?;
     if first != Some(Frame::Ok) {
-        return Err(setup("flooding publisher", format!("answered {first:?}")));
+        return Err(setup("flooding producer", format!("answered {first:?}")));
     }
     let chunk = Bytes::from(vec![b'x'; 64 * 1024]);
     let mut sent = 0usize;
@@ -113,7 +120,7 @@ async fn cell(set: Arc<CertSet>, n: usize, order: String, cellid: u64) -> Result
     }
     held._streams.push(pub_stream);
     if order == "stall-first" {
-        register_many(addr, &set, &ta, n, &mut held).await.map_err(|e| fail("registration-on-stalled-topic-unanswered", class, e))?;
+        register_many(addr, &set, &ta, n, &mut held, pattern == "reqrep").await.map_err(|e| fail("registration-on-stalled-topic-unanswered", class, e))?;
     }
     // the other topic must still work
     match round_trip(addr, &set, &b, Duration::from_secs(20)).await {
@@ -134,13 +141,18 @@ fn cells(tier: &str) -> Vec<Value> {
     let ns: &[usize] = if tier == "thorough" { &[0, 1, 50, 99, 100, 101, 102, 103, 150, 250] } else { &[0, 99, 100, 101, 102, 150] };
     let mut v = Vec::new();
     let mut id = 0;
-    for order in ["stall-first", "registrations-first"] {
-        for &n in ns {
-            if order == "registrations-first" && tier != "thorough" && n != 101 && n != 150 {
-                continue;
+    for pattern in ["pubsub", "reqrep"] {
+        for order in ["stall-first", "registrations-first"] {
+            for &n in ns {
+                if tier != "thorough" && order == "registrations-first" && n != 101 && n != 150 {
+                    continue;
+                }
+                if tier != "thorough" && pattern == "reqrep" && !(n == 0 || n == 101 || n == 150) {
+                    continue;
+                }
+                v.push(json!({"cell": id, "queued_registrations": n, "order": order, "stalled_pattern": pattern}));
+                id += 1;
             }
-            v.push(json!({"cell": id, "queued_registrations": n, "order": order}));
-            id += 1;
         }
     }
     v
@@ -155,7 +167,8 @@ pub async fn run(tier: &str, replaying: bool) -> ! {
         async move {
             let n = c["queued_registrations"].as_u64().unwrap() as usize;
             let order = c["order"].as_str().unwrap().to_string();
-            (n > 0, cell(set, n, order, c["cell"].as_u64().unwrap()).await)
+            let pattern = c["stalled_pattern"].as_str().unwrap_or("pubsub").to_string();
+            (n > 0, cell(set, n, order, pattern, c["cell"].as_u64().unwrap()).await)
         }
     })
     .await;
@@ -164,7 +177,7 @@ pub async fn run(tier: &str, replaying: bool) -> ! {
     finish(
         rep,
         outs,
-        "every cell of: number N of further registrations on the stalled topic in {0,(1,50,)99,100,101,102,(103,)150(,250)} x order {stall first then N registrations, N registrations first then stall}; per cell a fresh real server, topic A stalled by a raw subscriber that never reads plus a raw publisher flooding 64 KiB frames until a send takes longer than 1 s, N raw subscriber registrations on A (each awaits its Ok; a new QUIC connection every 50 streams), then a fresh real client opens subscriber + publisher on topic B and must round-trip a message within 20 s. non-trivial = N > 0",
+        "every cell of: number N of further registrations on the stalled topic in {0,(1,50,)99,100,101,102,(103,)150(,250)} x order {stall first then N registrations, N registrations first then stall} x stalled pattern {pub/sub: never-reading subscriber + flooding publisher; request/reply: never-reading bound replier + flooding requestor}; per cell a fresh real server, topic A stalled by a raw subscriber that never reads plus a raw publisher flooding 64 KiB frames until a send takes longer than 1 s, N raw subscriber registrations on A (each awaits its Ok; a new QUIC connection every 50 streams), then a fresh real client opens subscriber + publisher on topic B and must round-trip a message within 20 s. non-trivial = N > 0",
         "fault = misbehaving participants of one topic; enumerated exhaustively over the listed N and orders",
         json!({}),
         replaying,
